@@ -4,7 +4,7 @@ from harness import common
 ID = "C19"
 BOUNDS = {
     "quick": "n an unbounded symbolic int (all negatives are one path class; concretised in 0..3*len+2, larger n is one aborted class) plus the non-integers "
-             "{2.0, '2', None, True}; well collections: lists of 1, 3, 4 opaque ids, 1-D arrays, 2-D arrays 2x2 and 2x3 (stand-in arrays), an empty list, "
+             "{2.0, '2', None, True}; well collections: lists of 1, 3, 4 opaque ids, 1-D arrays, 2-D arrays 2x2 and 2x3 (stand-in arrays), an empty list, empty 2-D arrays (4x0, 0x3), "
              "a trough's `wells` attribute and a column slice; plus, by concrete execution on the real numpy, n in {255..257, 300, 511..513, 1000, 32767, 32768, 65535..65537, 70000} for five of the collections",
     "thorough": "lists up to 8, 2-D arrays up to 3x4 and 8x1",
 }
@@ -13,7 +13,7 @@ ASSUMPTIONS = ["the function only moves the ids, so object identity / equality o
 
 
 def colls(tier):
-    out = [("list", 1, 1), ("list", 3, 1), ("list", 4, 1), ("replist", 3, 1), ("arr1", 3, 1), ("arr2", 2, 2), ("arr2", 2, 3), ("list", 0, 1), ("trough", 4, 2), ("troughcol", 4, 2)]
+    out = [("list", 1, 1), ("list", 3, 1), ("list", 4, 1), ("replist", 3, 1), ("arr1", 3, 1), ("arr2", 2, 2), ("arr2", 2, 3), ("list", 0, 1), ("empty2d", 4, 0), ("empty2d", 0, 3), ("trough", 4, 2), ("troughcol", 4, 2)]
     if tier == "thorough":
         out += [("list", 8, 1), ("arr2", 3, 4), ("arr2", 8, 1)]
     return out
@@ -54,6 +54,10 @@ def scenario(ctx, p):
     elif kind == "arr1":
         colmajor = [f"W{i:02d}" for i in range(a)]
         wells = np.array(colmajor)
+    elif kind == "empty2d":
+        # an empty collection given as a 2-D array: a column slice past the last column (a x 0) or no rows (0 x b)
+        wells = np.array([[f"R{r}C{c}" for c in range(max(b, 1))] for r in range(max(a, 1))])[0:a, 0:b]
+        colmajor = []
     elif kind == "arr2":
         grid = [[f"R{r}C{c}" for c in range(b)] for r in range(a)]
         wells = np.array(grid)
